@@ -17,8 +17,7 @@ ASSUMPTIONS = list(c08.ASSUMPTIONS) + [
 ]
 LEVEL = "other"
 NOT_COVERED = ["the third-party codecs and the batching framing of serializer.py",
-               "message classes not listed among the functions under contract (the large option-carrying classes: Hello, "
-               "Welcome, Challenge, Authenticate, Error, Publish, Event, Call, Result, Register, Invocation, Yield)",
+               "Hello and Welcome (role feature objects)", "pre-serialized args / kwargs (str / bytes) of PUBLISH",
                "application payload (args / kwargs / transparent payload)", "the per-message serialization cache (Message._serialized / uncache)"]
 MSG = "autobahn.wamp.message"
 BASE = {"_from_fbs": "none", "_serialized": "any", "_correlation_id": "any", "_correlation_uri": "any",
@@ -33,15 +32,17 @@ def build(reg):
     reg.units[:] = [u for u in reg.units if "C03" in u.props]      # the validators are C08's units
     common = dict(props=["C03"], spec_module="specs.wampuri")
 
-    def lemma(fn, cls, fields, requires, same, extra_inline=()):
+    def lemma(fn, cls, fields, requires, same, extra_inline=(), canon=(), more_inline=()):
         shape = "M" + cls
         reg.shape(shape, cls=MSG + ":" + cls, fields=dict(BASE, **fields))
         inl = [MSG + ":%s.%s" % (cls, x) for x in ["marshal", "parse", "__init__"] + list(same) + list(extra_inline)] + [MSG + ":Message.__init__", MSG + ":check_or_raise_extra", MSG + ":_validate_kwargs",
                                                             MSG + ":MessageWithForwardFor.forward_for", MSG + ":MessageWithForwardFor.__init__",
-                                                            MSG + ":MessageWithForwardFor._init_forward_for"]
+                                                            MSG + ":MessageWithForwardFor._init_forward_for"] + list(more_inline)
+        # canon: the wire format cannot tell an absent args / kwargs from an empty one -- those two are identified
         reg.contract("specs.c03_lemmas:" + fn, name="C03/roundtrip[%s]" % cls, params={"m": "obj:" + shape},
                      returns="any", requires=requires,
-                     ensures=["isinstance(result, %s)" % cls] + ["result.%s == m.%s" % (f, f) for f in same],
+                     ensures=["isinstance(result, %s)" % cls] + ["result.%s == m.%s" % (f, f) for f in same]
+                     + ["(result.%s is m.%s) or (not m.%s and not result.%s)" % (f, f, f, f) for f in canon],
                      inline_calls=inl, **common)
     lemma("rt_published", "Published", {"_request": "int", "_publication": "int"}, [ID % "_request", ID % "_publication"],
           ["request", "publication"])
@@ -84,6 +85,75 @@ def build(reg):
           [ID % "_request", "uri_ok(m._topic, False, False, True)",
            "m._match == 'exact' or m._match == 'prefix' or m._match == 'wildcard'", FF_REQ],
           ["request", "topic", "match", "get_retained", "forward_for"], extra_inline=["marshal_options"])
+    lemma("rt_register", "Register", {"_request": "int", "_procedure": "str", "_match": "str", "_invoke": "str",
+                                       "_concurrency": "opt:int", "_force_reregister": "opt:bool", "_forward_for": FFT},
+          [ID % "_request", "m._match == 'exact' or m._match == 'prefix' or m._match == 'wildcard'",
+           "uri_ok(m._procedure, False, m._match == 'prefix', m._match == 'wildcard')",
+           "m._invoke == 'single' or m._invoke == 'first' or m._invoke == 'last' or m._invoke == 'roundrobin' or m._invoke == 'random'",
+           "m._concurrency is None or m._concurrency > 0", FF_REQ],
+          ["request", "procedure", "match", "invoke", "concurrency", "force_reregister", "forward_for"],
+          extra_inline=["marshal_options"])
+    lemma("rt_challenge", "Challenge", {"_method": "str", "_extra": "udict:"}, ["str_keys(m._extra)"], ["method", "extra"])
+    lemma("rt_authenticate", "Authenticate", {"_signature": "str", "_extra": "udict:"}, ["str_keys(m._extra)"],
+          ["signature", "extra"])
+    # application payload: args / kwargs, or an opaque payload with its transparency attributes
+    PAY = {"_args": "none|ulist:any", "_kwargs": "none|udict:", "_payload": "opt:bytes", "_enc_algo": "opt:str", "_enc_key": "opt:str",
+           "_enc_serializer": "opt:str"}
+    PAY_REQ = ["implies(m._kwargs is not None, str_keys(m._kwargs))",
+               "implies(m._payload is not None, m._args is None and m._kwargs is None)",
+               "implies(m._enc_algo is not None, enc_algo_ok(m._enc_algo))",
+               "implies(m._enc_serializer is not None, enc_ser_ok(m._enc_serializer))",
+               "(m._enc_algo is None and m._enc_key is None and m._enc_serializer is None) or "
+               "(m._payload is not None and m._enc_algo is not None)"]
+    PAY_SAME = ["payload", "enc_algo", "enc_key", "enc_serializer"]
+    PAY_INL = [MSG + ":MessageWithAppPayload._init_app_payload"] + [MSG + ":MessageWithAppPayload." + x for x in
+                                                                     ["args", "kwargs"] + PAY_SAME]
+    SID = "implies(m.%s is not None, 0 <= m.%s <= 2**53)"
+    lemma("rt_yield", "Yield", dict(PAY, _request="int", _progress="opt:bool", _callee="opt:int", _callee_authid="opt:str",
+                                    _callee_authrole="opt:str", _forward_for=FFT),
+          [ID % "_request", SID % ("_callee", "_callee"), FF_REQ] + PAY_REQ,
+          ["request", "progress", "callee", "callee_authid", "callee_authrole", "forward_for"] + PAY_SAME,
+          canon=["args", "kwargs"], more_inline=PAY_INL)
+    CALLEE = dict(_callee="opt:int", _callee_authid="opt:str", _callee_authrole="opt:str", _forward_for=FFT)
+    CALLEE_F = ["callee", "callee_authid", "callee_authrole", "forward_for"]
+    CALLER = dict(_caller="opt:int", _caller_authid="opt:str", _caller_authrole="opt:str", _forward_for=FFT)
+    CALLER_F = ["caller", "caller_authid", "caller_authrole", "forward_for"]
+    lemma("rt_result", "Result", dict(PAY, _request="int", _progress="opt:bool", **CALLEE),
+          [ID % "_request", SID % ("_callee", "_callee"), FF_REQ] + PAY_REQ, ["request", "progress"] + CALLEE_F + PAY_SAME,
+          canon=["args", "kwargs"], more_inline=PAY_INL)
+    lemma("rt_error", "Error", dict(PAY, _request_type="int", _request="int", _error="str", **CALLEE),
+          [ID % "_request", " or ".join("m._request_type == %d" % t for t in (32, 34, 16, 64, 66, 48, 68)), URI_OK % "_error",
+           SID % ("_callee", "_callee"), FF_REQ] + PAY_REQ, ["request_type", "request", "error"] + CALLEE_F + PAY_SAME,
+          canon=["args", "kwargs"], more_inline=PAY_INL)
+    lemma("rt_call", "Call", dict(PAY, _request="int", _procedure="str", _timeout="opt:int", _receive_progress="opt:bool",
+                                  _transaction_hash="opt:str", **CALLER),
+          [ID % "_request", URI_OK % "_procedure", "m._timeout is None or m._timeout >= 0", SID % ("_caller", "_caller"), FF_REQ]
+          + PAY_REQ, ["request", "procedure", "timeout", "receive_progress", "transaction_hash"] + CALLER_F + PAY_SAME,
+          canon=["args", "kwargs"], more_inline=PAY_INL, extra_inline=["marshal_options"])
+    lemma("rt_invocation", "Invocation", dict(PAY, _request="int", _registration="int", _timeout="opt:int",
+                                              _receive_progress="opt:bool", _transaction_hash="opt:str", _procedure="opt:str",
+                                              **CALLER),
+          [ID % "_request", ID % "_registration", "m._timeout is None or m._timeout >= 0", SID % ("_caller", "_caller"),
+           "implies(m._procedure is not None, %s)" % (URI_OK % "_procedure"), FF_REQ] + PAY_REQ,
+          ["request", "registration", "timeout", "receive_progress", "transaction_hash", "procedure"] + CALLER_F + PAY_SAME,
+          canon=["args", "kwargs"], more_inline=PAY_INL)
+    lemma("rt_event", "Event", dict(PAY, _subscription="int", _publication="int", _publisher="opt:int", _publisher_authid="opt:str",
+                                    _publisher_authrole="opt:str", _topic="opt:str", _retained="opt:bool",
+                                    _transaction_hash="opt:str", _x_acknowledged_delivery="opt:bool", _forward_for=FFT),
+          [ID % "_subscription", ID % "_publication", SID % ("_publisher", "_publisher"),
+           "implies(m._topic is not None, %s)" % (URI_OK % "_topic"), FF_REQ] + PAY_REQ,
+          ["subscription", "publication", "publisher", "publisher_authid", "publisher_authrole", "topic", "retained",
+           "transaction_hash", "x_acknowledged_delivery", "forward_for"] + PAY_SAME,
+          canon=["args", "kwargs"], more_inline=PAY_INL)
+    LISTS = {"exclude": "int", "eligible": "int", "exclude_authid": "str", "exclude_authrole": "str", "eligible_authid": "str",
+             "eligible_authrole": "str"}
+    lemma("rt_publish", "Publish", dict(PAY, _request="int", _topic="str", _acknowledge="opt:bool", _exclude_me="opt:bool",
+                                        _retain="opt:bool", _transaction_hash="opt:str", _forward_for=FFT,
+                                        **{"_" + k: "none|ulist:" + t for k, t in LISTS.items()}),
+          [ID % "_request", URI_OK % "_topic", FF_REQ] + PAY_REQ
+          + ["implies(m._%s is not None, forall(q, 0, len(m._%s), 0 <= m._%s[q] <= 2**53))" % (k, k, k) for k in ("exclude", "eligible")],
+          ["request", "topic", "acknowledge", "exclude_me", "retain", "transaction_hash", "forward_for"] + list(LISTS) + PAY_SAME,
+          canon=["args", "kwargs"], more_inline=PAY_INL, extra_inline=["marshal_options"])
 
 
 def extra_checks(tier, seed):
@@ -140,8 +210,12 @@ def replay(o):
         if k.startswith("m._") and k[3:] not in ("from_fbs", "serialized", "router_internal") and not k.startswith("m._correlation"):
             if isinstance(v, (int, str, bool)) or v is None:
                 fields[k[3:]] = v
+            elif isinstance(v, dict) and "bytes" in v:
+                fields[k[3:]] = bytes(int(b) & 255 for b in v["bytes"] if not isinstance(b, str))
+            elif isinstance(v, dict) and "dict" in v:
+                fields[k[3:]] = dict(v["dict"], **({v["other_key"]: 0} if isinstance(v.get("other_key"), str) else {}))
             elif isinstance(v, list):      # forward_for chain: [{"dict": {...}}, ...]
-                fields[k[3:]] = [dict(e["dict"]) if isinstance(e, dict) and "dict" in e else e for e in v]
+                fields[k[3:]] = [dict(e["dict"]) if isinstance(e, dict) and "dict" in e else (0 if e == "<opaque>" else e) for e in v]
     out = Rp.run_py(_HARNESS.replace("CASE", repr({"cls": mt.group(1), "fields": fields})))
     bad = isinstance(out, dict) and bool(out.get("diff"))
     return {"reproduced": bad, "case": {"cls": mt.group(1), "fields": fields}, "observed": out,
